@@ -128,7 +128,7 @@ bi383_next(bitint_iter_t *restrict iter, const bitint383_t *bi)
 			res = ij * POS_BITZ + ip;
 			*iter = res + 1U;
 		}
-	} else if (*iter > countof(bi->pos) * POS_BITZ &&
+	} else if (*iter >= countof(bi->pos) * POS_BITZ &&
 		   *iter < countof(bi->neg) * NEG_BITZ +
 		   countof(bi->pos) * POS_BITZ) {
 		/* negatives */
@@ -137,6 +137,9 @@ bi383_next(bitint_iter_t *restrict iter, const bitint383_t *bi)
 		ij = *iter / POS_BITZ;
 		ip = *iter % POS_BITZ;
 		ij -= countof(bi->pos);
+		/* right after the largest positive: neg[0]'s bit 0 is the
+		 * naught and has been dealt with, start at bit 1 */
+		ip += !ij && !ip;
 
 	negs:
 		if (tmp = bi->neg[ij], tmp >>= ip) {
@@ -259,7 +262,7 @@ bi447_next(bitint_iter_t *restrict iter, const bitint447_t *bi)
 			res = ij * POS_BITZ + ip;
 			*iter = res + 1U;
 		}
-	} else if (*iter > countof(bi->pos) * POS_BITZ &&
+	} else if (*iter >= countof(bi->pos) * POS_BITZ &&
 		   *iter < countof(bi->pos) * NEG_BITZ +
 		   countof(bi->pos) * POS_BITZ) {
 		/* negatives */
@@ -268,6 +271,9 @@ bi447_next(bitint_iter_t *restrict iter, const bitint447_t *bi)
 		ij = *iter / POS_BITZ;
 		ip = *iter % POS_BITZ;
 		ij -= countof(bi->pos);
+		/* right after the largest positive: neg[0]'s bit 0 is the
+		 * naught and has been dealt with, start at bit 1 */
+		ip += !ij && !ip;
 
 	negs:
 		if (tmp = bi->neg[ij], tmp >>= ip) {
